@@ -259,67 +259,6 @@ class Check:
         self.timings["coq_eval"] = round(self.timings.get("coq_eval", 0) + time.time() - t, 2)
         return rc, out
 
-    # ------------------------------------------------- code refinement (gotrans)
-    def code_cex(self, area, force=False, timeout=600):
-        """Counterexample search for the code refinement lemmas of an area
-        (runs when `force` or when a recorded build failure lies in a
-        CodeRefine.v / CodeCands.v / Gen/Code*.v file or a file needing one).
-
-        gen/gotrans.go translates Go function bodies into Gen/Code*.v and
-        theories/<area>/CodeRefine.v proves each equal to its model.  When
-        such a lemma no longer checks, both sides are still executable:
-        theories/<area>/CodeCands.v (which needs only the generated file and
-        the model) defines `cex_<f>`, the candidates on which they disagree.
-        Each is evaluated with vm_compute; a disagreement is reported as
-        violation "code:<f>" with the input and both results.  Returns the
-        names of the functions for which an input was found."""
-        cands = "theories/%s/CodeCands.v" % area
-        hit = any(re.search(r"(CodeRefine|CodeCands|Gen/Code\w+)\.v$", str(b.get("file") or ""))
-                  or "CodeRefine" in str(b.get("coq_message") or "") + str(b.get("detail") or "")
-                  for b in self.broken)
-        if not (force or hit):
-            return []
-        try:
-            src = open(os.path.join(COQ, cands)).read()
-        except OSError:
-            return []
-        names = re.findall(r"^Definition\s+cex_([A-Za-z0-9_']+)", src, re.M)
-        t = time.time()
-        self._ensure_makefile()
-        rc, out = sh(["make", "-j16", cands[:-2] + ".vo"], cwd=COQ, timeout=timeout)
-        found = []
-        if rc != 0:
-            self.notes.append("code_cex %s: candidates do not build (generated definition untranslatable "
-                              "or of a changed type): %s" % (area, out[-400:]))
-            self.timings["code_cex"] = round(self.timings.get("code_cex", 0) + time.time() - t, 2)
-            return found
-        txt = ("From Coq Require Import String.\nFrom Coq Require Import List NArith ZArith Bool.\n"
-               "From Verif Require Import Lib.GoLib %s.CodeCands.\nImport ListNotations.\n"
-               "Open Scope string_scope.\nOpen Scope list_scope.\nOpen Scope Z_scope.\n" % area)
-        for n in names:
-            txt += 'Goal True. idtac "@@%s". Abort.\nEval vm_compute in (hd_error cex_%s).\n' % (n, n)
-        rc, out = self.coq_eval("code_cex_" + area, txt, timeout=timeout)
-        self.timings["code_cex"] = round(self.timings.get("code_cex", 0) + time.time() - t, 2)
-        if rc != 0:
-            self.notes.append("code_cex %s: evaluation failed: %s" % (area, out[-400:]))
-            return found
-        parts = re.split(r"@@([A-Za-z0-9_']+)\n", out)
-        res = {}
-        for i in range(1, len(parts), 2):
-            body = " ".join(parts[i + 1].split())
-            m = re.match(r"=\s*(.*?)\s*:\s*option", body)
-            val = m.group(1) if m else body
-            res[parts[i]] = val
-            if val.startswith("Some"):
-                found.append(parts[i])
-                self.violation("code:" + parts[i],
-                               "the Go code as translated now and the proved model disagree on a concrete input: "
-                               "(input, (code result, model result)) = %s" % show_coq_bytes(val[4:].strip()),
-                               {"function": parts[i], "coq_value": val,
-                                "how": "vm_compute of hd_error cex_%s in theories/%s/CodeCands.v" % (parts[i], area)})
-        self.coverage.setdefault("code_cex", {})[area] = res
-        return found
-
     # ------------------------------------------------------------- harness
     def build_harness(self, cmd, race=False):
         t = time.time()
@@ -470,18 +409,6 @@ def strip_coq_comments(s):
                 out.append(s[i])
             i += 1
     return "".join(out)
-
-
-def show_coq_bytes(s):
-    """Render `[47; 46]` byte lists inside a printed Coq value as quoted strings (for messages)."""
-    def one(m):
-        try:
-            bs = bytes(int(x) for x in re.split(r"[;\s]+", m.group(1).strip()) if x)
-        except ValueError:
-            return m.group(0)
-        return json.dumps(bs.decode("latin-1"))
-    s = re.sub(r"\[((?:\d+(?:%N)?\s*;\s*)*\d+(?:%N)?)\]", lambda m: one(re.match(r"(.*)", m.group(1).replace("%N", ""))), s)
-    return s.replace("[]", '""').replace("%N", "").replace("%Z", "")
 
 
 def enclosing_statement(path, line):
